@@ -34,14 +34,44 @@ theorem erase_count {t : Nat} {l : List (Nat × Val)} {v : Val} (h : (t, v) ∈ 
       rw [erase_cons_tail (by simpa using ha)]
       simp [count_cons] at this ⊢; omega
 
+theorem startCloseSb_ok (fl s h t op) :
+    StepOk fl s (.fresh t op) (startCloseSb s t h).1 (startCloseSb s t h).2 [] := by
+  unfold startCloseSb
+  split
+  · exact StepOk.ofSameFin (same_ok fl s)
+  · split
+    · exact StepOk.ofSameFin (same_ok fl s)
+    · have hu : (Inv fl s → Inv fl ({ s with hs := setH s.hs h (fun x => { x with closed := true }), pd := true } : St)) ∧
+          SameAcct s ({ s with hs := setH s.hs h (fun x => { x with closed := true }), pd := true } : St) := by upd
+      exact StepOk.ofSame hu.1 hu.2 rfl rfl rfl rfl
+
+theorem startDropSb_ok (fl s h t op) :
+    StepOk fl s (.fresh t op) (startDropSb s t h).1 (startDropSb s t h).2 [] := by
+  unfold startDropSb
+  split
+  · exact StepOk.ofSameFin (same_ok fl s)
+  · split
+    · exact StepOk.ofSameFin (ok_trans (eraseHandle_ok fl s h) (teardownIfLast_ok fl _))
+    · have hu : (Inv fl s → Inv fl ({ (s.eraseHandle h) with pd := true } : St)) ∧
+          SameAcct s ({ (s.eraseHandle h) with pd := true } : St) := by unfold St.eraseHandle; upd
+      exact StepOk.ofSame hu.1 hu.2 rfl rfl rfl rfl
+
 theorem start_ok (fl cfg s t op) :
     ∃ δ, (δ = [] ∨ δ = op.vals) ∧ StepOk fl s (.fresh t op) (start fl cfg s t op).1 (start fl cfg s t op).2 δ := by
   cases op with
   | snd f h vs => exact startSend_ok ..
   | rcv f h n => exact ⟨[], Or.inl rfl, startRecv_ok ..⟩
   | clone h h' => exact ⟨[], Or.inl rfl, startClone_ok ..⟩
-  | close h => exact ⟨[], Or.inl rfl, startClose_ok ..⟩
-  | drop h => exact ⟨[], Or.inl rfl, startDrop_ok ..⟩
+  | close h =>
+    simp only [start]
+    split
+    · exact ⟨[], Or.inl rfl, startCloseSb_ok ..⟩
+    · exact ⟨[], Or.inl rfl, startClose_ok ..⟩
+  | drop h =>
+    simp only [start]
+    split
+    · exact ⟨[], Or.inl rfl, startDropSb_ok ..⟩
+    · exact ⟨[], Or.inl rfl, startDrop_ok ..⟩
   | probe p h => exact ⟨[], Or.inl rfl, startProbe_ok ..⟩
   | toAsync h => exact ⟨[], Or.inl rfl, startConvert_ok ..⟩
   | toSync h => exact ⟨[], Or.inl rfl, startConvert_ok ..⟩
@@ -151,6 +181,7 @@ theorem microDet_ok {fl cfg s p s' p'} (hs : microDet fl cfg s p = some (s', p')
     split at hs
     · cases hs
     · exact ⟨[], Or.inl rfl, osRecvStep_ok _ ⟨rfl, rfl, rfl, rfl⟩ hs⟩
+  | stg t k h sent rest => exact ⟨[], Or.inl rfl, stgStep_ok hs⟩
   | fin o => simp [microDet] at hs
 
 
